@@ -29,6 +29,7 @@ TransTable ==
   @@ <<"in_sender", "", "Event_SwapInSender_OnSwapInRequested">> :> "State_SwapInSender_CreateSwap"
   @@ <<"in_sender", "State_SendCancel", "Event_ActionFailed">> :> "State_SwapCanceled"
   @@ <<"in_sender", "State_SendCancel", "Event_ActionSucceeded">> :> "State_SwapCanceled"
+  @@ <<"in_sender", "State_SwapInSender_AwaitAgreement", "Event_ActionFailed">> :> "State_SendCancel"
   @@ <<"in_sender", "State_SwapInSender_AwaitAgreement", "Event_Invalid_Message">> :> "State_SendCancel"
   @@ <<"in_sender", "State_SwapInSender_AwaitAgreement", "Event_OnCancelReceived">> :> "State_SwapCanceled"
   @@ <<"in_sender", "State_SwapInSender_AwaitAgreement", "Event_OnTimeout">> :> "State_SendCancel"
@@ -44,9 +45,9 @@ TransTable ==
   @@ <<"in_sender", "State_SwapInSender_ClaimSwapCoop", "Event_ActionSucceeded">> :> "State_ClaimedCoop"
   @@ <<"in_sender", "State_SwapInSender_ClaimSwapCsv", "Event_ActionSucceeded">> :> "State_ClaimedCsv"
   @@ <<"in_sender", "State_SwapInSender_ClaimSwapCsv", "Event_OnRetry">> :> "State_SwapInSender_ClaimSwapCsv"
-  @@ <<"in_sender", "State_SwapInSender_CreateSwap", "Event_ActionFailed">> :> "State_SwapCanceled"
+  @@ <<"in_sender", "State_SwapInSender_CreateSwap", "Event_ActionFailed">> :> "State_SendCancel"
   @@ <<"in_sender", "State_SwapInSender_CreateSwap", "Event_ActionSucceeded">> :> "State_SwapInSender_SendRequest"
-  @@ <<"in_sender", "State_SwapInSender_SendRequest", "Event_ActionFailed">> :> "State_SwapCanceled"
+  @@ <<"in_sender", "State_SwapInSender_SendRequest", "Event_ActionFailed">> :> "State_SendCancel"
   @@ <<"in_sender", "State_SwapInSender_SendRequest", "Event_ActionSucceeded">> :> "State_SwapInSender_AwaitAgreement"
   @@ <<"in_sender", "State_SwapInSender_SendTxBroadcastedMessage", "Event_ActionFailed">> :> "State_WaitCsv"
   @@ <<"in_sender", "State_SwapInSender_SendTxBroadcastedMessage", "Event_ActionSucceeded">> :> "State_SwapInSender_AwaitClaimPayment"
@@ -64,6 +65,7 @@ TransTable ==
   @@ <<"out_receiver", "State_SwapOutReceiver_AwaitFeeInvoicePayment", "Event_ActionFailed">> :> "State_SendCancel"
   @@ <<"out_receiver", "State_SwapOutReceiver_AwaitFeeInvoicePayment", "Event_OnCancelReceived">> :> "State_SwapCanceled"
   @@ <<"out_receiver", "State_SwapOutReceiver_AwaitFeeInvoicePayment", "Event_OnFeeInvoicePaid">> :> "State_SwapOutReceiver_BroadcastOpeningTx"
+  @@ <<"out_receiver", "State_SwapOutReceiver_AwaitFeeInvoicePayment", "Event_OnTimeout">> :> "State_SendCancel"
   @@ <<"out_receiver", "State_SwapOutReceiver_BroadcastOpeningTx", "Event_ActionFailed">> :> "State_SendCancel"
   @@ <<"out_receiver", "State_SwapOutReceiver_BroadcastOpeningTx", "Event_ActionSucceeded">> :> "State_SwapOutReceiver_SendTxBroadcastedMessage"
   @@ <<"out_receiver", "State_SwapOutReceiver_ClaimSwapCoop", "Event_ActionFailed">> :> "State_WaitCsv"
@@ -81,7 +83,7 @@ TransTable ==
   @@ <<"out_sender", "", "Event_OnSwapOutStarted">> :> "State_SwapOutSender_CreateSwap"
   @@ <<"out_sender", "State_SendCancel", "Event_ActionFailed">> :> "State_SwapCanceled"
   @@ <<"out_sender", "State_SendCancel", "Event_ActionSucceeded">> :> "State_SwapCanceled"
-  @@ <<"out_sender", "State_SwapOutSender_AwaitAgreement", "Event_ActionFailed">> :> "State_SwapCanceled"
+  @@ <<"out_sender", "State_SwapOutSender_AwaitAgreement", "Event_ActionFailed">> :> "State_SendCancel"
   @@ <<"out_sender", "State_SwapOutSender_AwaitAgreement", "Event_Invalid_Message">> :> "State_SendCancel"
   @@ <<"out_sender", "State_SwapOutSender_AwaitAgreement", "Event_OnCancelReceived">> :> "State_SwapCanceled"
   @@ <<"out_sender", "State_SwapOutSender_AwaitAgreement", "Event_OnFeeInvoiceReceived">> :> "State_SwapOutSender_PayFeeInvoice"
@@ -94,8 +96,7 @@ TransTable ==
   @@ <<"out_sender", "State_SwapOutSender_AwaitTxConfirmation", "Event_OnTxConfirmed">> :> "State_SwapOutSender_ValidateTxAndPayClaimInvoice"
   @@ <<"out_sender", "State_SwapOutSender_ClaimSwap", "Event_ActionSucceeded">> :> "State_ClaimedPreimage"
   @@ <<"out_sender", "State_SwapOutSender_ClaimSwap", "Event_OnRetry">> :> "State_SwapOutSender_ClaimSwap"
-  @@ <<"out_sender", "State_SwapOutSender_ClaimSwap", "Event_OnTimeout">> :> "State_SwapOutSender_SendPrivkey"
-  @@ <<"out_sender", "State_SwapOutSender_CreateSwap", "Event_ActionFailed">> :> "State_SwapCanceled"
+  @@ <<"out_sender", "State_SwapOutSender_CreateSwap", "Event_ActionFailed">> :> "State_SendCancel"
   @@ <<"out_sender", "State_SwapOutSender_CreateSwap", "Event_ActionSucceeded">> :> "State_SwapOutSender_SendRequest"
   @@ <<"out_sender", "State_SwapOutSender_PayFeeInvoice", "Event_ActionFailed">> :> "State_SendCancel"
   @@ <<"out_sender", "State_SwapOutSender_PayFeeInvoice", "Event_ActionSucceeded">> :> "State_SwapOutSender_AwaitTxBroadcastedMessage"
@@ -103,7 +104,7 @@ TransTable ==
   @@ <<"out_sender", "State_SwapOutSender_SendCoopClose", "Event_ActionSucceeded">> :> "State_ClaimedCoop"
   @@ <<"out_sender", "State_SwapOutSender_SendPrivkey", "Event_ActionFailed">> :> "State_SendCancel"
   @@ <<"out_sender", "State_SwapOutSender_SendPrivkey", "Event_ActionSucceeded">> :> "State_SwapOutSender_SendCoopClose"
-  @@ <<"out_sender", "State_SwapOutSender_SendRequest", "Event_ActionFailed">> :> "State_SwapCanceled"
+  @@ <<"out_sender", "State_SwapOutSender_SendRequest", "Event_ActionFailed">> :> "State_SendCancel"
   @@ <<"out_sender", "State_SwapOutSender_SendRequest", "Event_ActionSucceeded">> :> "State_SwapOutSender_AwaitAgreement"
   @@ <<"out_sender", "State_SwapOutSender_ValidateTxAndPayClaimInvoice", "Event_ActionFailed">> :> "State_SwapOutSender_SendPrivkey"
   @@ <<"out_sender", "State_SwapOutSender_ValidateTxAndPayClaimInvoice", "Event_ActionSucceeded">> :> "State_SwapOutSender_ClaimSwap"
@@ -166,6 +167,6 @@ ActionTable ==
   @@ <<"out_sender", "State_SwapOutSender_SendPrivkey">> :> <<"TakerSendPrivkeyAction">>
   @@ <<"out_sender", "State_SwapOutSender_SendRequest">> :> <<"SendMessageAction">>
   @@ <<"out_sender", "State_SwapOutSender_ValidateTxAndPayClaimInvoice">> :> <<"ValidateTxAndPayClaimInvoiceAction">>
-FailOnRecover == {<<"in_receiver", "State_SwapInReceiver_CreateSwap">>, <<"in_sender", "State_SwapInSender_CreateSwap">>, <<"out_receiver", "State_SwapOutReceiver_AwaitFeeInvoicePayment">>, <<"out_receiver", "State_SwapOutReceiver_CreateSwap">>, <<"out_sender", "State_SwapOutSender_AwaitAgreement">>, <<"out_sender", "State_SwapOutSender_CreateSwap">>, <<"out_sender", "State_SwapOutSender_PayFeeInvoice">>, <<"out_sender", "State_SwapOutSender_SendRequest">>}
+FailOnRecover == {<<"in_receiver", "State_SwapInReceiver_CreateSwap">>, <<"in_receiver", "State_SwapInReceiver_SendAgreement">>, <<"in_sender", "State_SwapInSender_AwaitAgreement">>, <<"in_sender", "State_SwapInSender_CreateSwap">>, <<"in_sender", "State_SwapInSender_SendRequest">>, <<"out_receiver", "State_SwapOutReceiver_AwaitFeeInvoicePayment">>, <<"out_receiver", "State_SwapOutReceiver_CreateSwap">>, <<"out_receiver", "State_SwapOutReceiver_SendFeeInvoice">>, <<"out_sender", "State_SwapOutSender_AwaitAgreement">>, <<"out_sender", "State_SwapOutSender_CreateSwap">>, <<"out_sender", "State_SwapOutSender_PayFeeInvoice">>, <<"out_sender", "State_SwapOutSender_SendRequest">>}
 TableStates == {<<"in_receiver", "">>, <<"in_receiver", "State_ClaimedCoop">>, <<"in_receiver", "State_ClaimedPreimage">>, <<"in_receiver", "State_SendCancel">>, <<"in_receiver", "State_SwapCanceled">>, <<"in_receiver", "State_SwapInReceiver_AwaitTxBroadcastedMessage">>, <<"in_receiver", "State_SwapInReceiver_AwaitTxConfirmation">>, <<"in_receiver", "State_SwapInReceiver_ClaimSwap">>, <<"in_receiver", "State_SwapInReceiver_CreateSwap">>, <<"in_receiver", "State_SwapInReceiver_SendAgreement">>, <<"in_receiver", "State_SwapInReceiver_SendCoopClose">>, <<"in_receiver", "State_SwapInReceiver_SendPrivkey">>, <<"in_receiver", "State_SwapInReceiver_ValidateTxAndPayClaimInvoice">>, <<"in_sender", "">>, <<"in_sender", "State_ClaimedCoop">>, <<"in_sender", "State_ClaimedCsv">>, <<"in_sender", "State_ClaimedPreimage">>, <<"in_sender", "State_SendCancel">>, <<"in_sender", "State_SwapCanceled">>, <<"in_sender", "State_SwapInSender_AwaitAgreement">>, <<"in_sender", "State_SwapInSender_AwaitClaimPayment">>, <<"in_sender", "State_SwapInSender_BroadcastOpeningTx">>, <<"in_sender", "State_SwapInSender_ClaimSwapCoop">>, <<"in_sender", "State_SwapInSender_ClaimSwapCsv">>, <<"in_sender", "State_SwapInSender_CreateSwap">>, <<"in_sender", "State_SwapInSender_SendRequest">>, <<"in_sender", "State_SwapInSender_SendTxBroadcastedMessage">>, <<"in_sender", "State_WaitCsv">>, <<"out_receiver", "">>, <<"out_receiver", "State_ClaimedCoop">>, <<"out_receiver", "State_ClaimedCsv">>, <<"out_receiver", "State_ClaimedPreimage">>, <<"out_receiver", "State_SendCancel">>, <<"out_receiver", "State_SwapCanceled">>, <<"out_receiver", "State_SwapOutReceiver_AwaitClaimInvoicePayment">>, <<"out_receiver", "State_SwapOutReceiver_AwaitFeeInvoicePayment">>, <<"out_receiver", "State_SwapOutReceiver_BroadcastOpeningTx">>, <<"out_receiver", "State_SwapOutReceiver_ClaimSwapCoop">>, <<"out_receiver", "State_SwapOutReceiver_ClaimSwapCsv">>, <<"out_receiver", "State_SwapOutReceiver_CreateSwap">>, <<"out_receiver", "State_SwapOutReceiver_SendFeeInvoice">>, <<"out_receiver", "State_SwapOutReceiver_SendTxBroadcastedMessage">>, <<"out_receiver", "State_WaitCsv">>, <<"out_sender", "">>, <<"out_sender", "State_ClaimedCoop">>, <<"out_sender", "State_ClaimedPreimage">>, <<"out_sender", "State_SendCancel">>, <<"out_sender", "State_SwapCanceled">>, <<"out_sender", "State_SwapOutSender_AwaitAgreement">>, <<"out_sender", "State_SwapOutSender_AwaitTxBroadcastedMessage">>, <<"out_sender", "State_SwapOutSender_AwaitTxConfirmation">>, <<"out_sender", "State_SwapOutSender_ClaimSwap">>, <<"out_sender", "State_SwapOutSender_CreateSwap">>, <<"out_sender", "State_SwapOutSender_PayFeeInvoice">>, <<"out_sender", "State_SwapOutSender_SendCoopClose">>, <<"out_sender", "State_SwapOutSender_SendPrivkey">>, <<"out_sender", "State_SwapOutSender_SendRequest">>, <<"out_sender", "State_SwapOutSender_ValidateTxAndPayClaimInvoice">>}
 ===============================================================================
